@@ -48,7 +48,7 @@ CHECKS = {
  },
  "C19": {
   "category": "fault_enumeration",
-  "text": "The real Portfolio, _run_solver and one real SmtLibSolver per member run as tasks of a deterministic kernel (baton-passing threads, virtual clock) over simulated Queue/Pipe/Process and simulated solver binaries. The tape decides every interleaving at IPC / process-control / pipe-I/O points, queue feeder delays, exact ties and near-ties of member completion times, each member's model, slow process start-up (members listed early report before later ones exist), member-specific options, and per-solve member faults (unknown, error reply, death before answering, death at start-up, stall, death right after answering) for any subset of members including all. Oracles: verdict = brute-force truth whenever a member can answer; model / joint values satisfy the assertions; no spurious exception; bounded liveness (deadlock or budget exhaustion with no stalled member is 'blocks forever'). Sampling, not proof.",
+  "text": "The real Portfolio, _run_solver and one real SmtLibSolver per member run as tasks of a deterministic kernel (baton-passing threads, virtual clock) over simulated Queue/Pipe/Process and simulated solver binaries. The tape decides every interleaving at IPC / process-control / pipe-I/O points, queue feeder delays, exact ties and near-ties of member completion times, each member's model, slow process start-up (members listed early report before later ones exist), member-specific options, a finite descriptor budget per process over long sessions, the moment the parent's garbage collector runs, and per-solve member faults (unknown, error reply, death before answering, death at start-up, stall, death right after answering) for any subset of members including all. Oracles: verdict = brute-force truth whenever a member can answer; model / joint values satisfy the assertions; no spurious exception; bounded liveness (deadlock or budget exhaustion with no stalled member is 'blocks forever'). Sampling, not proof.",
   "design_ref": "DESIGN.md section 4 (C19)",
   "note": "Trusted: kernel and IPC model (dsim/kernel.py, dsim/mp.py: synchronous terminate, fork-style descriptor inheritance, asynchronous Queue.put lost on kill), reference solver, blueprint evaluator. Children share the parent's Environment (no copy-on-write isolation). No wrong-answer fault; when the winner dies after answering, a later request may raise but must not block or return wrong data.",
   "technique": "deterministic simulation with fault injection: seeded scheduler over simulated processes/queues/pipes, virtual time, member crash/unknown/stall faults, minimisation + exact replay",
